@@ -358,9 +358,13 @@ func childSnap(args []string) {
 	atRest("the initial load", 0, false)
 
 	var done, inReload, started int32
+	// removalSeq is odd while the reload that finds the file removed runs: a call that read the
+	// same even number before and after did not overlap it
+	var removalSeq int32
 	var mu sync.Mutex
 	seen := map[snapState]string{} // reader states → first detail
 	seenN := map[snapState]int64{}
+	seenApart := map[snapState]bool{} // some occurrence did not overlap the file-removal reload
 	var snaps, during int64
 	var progress int64 // snapshots completed so far, all readers (pacing only)
 	var wg sync.WaitGroup
@@ -371,11 +375,13 @@ func childSnap(args []string) {
 			rr := vlib.NewRand(seed ^ uint64(g+1)*0x9e3779b97f4a7c15)
 			mine := map[snapState]string{}
 			mineN := map[snapState]int64{}
+			mineApart := map[snapState]bool{}
 			per := map[string]int64{}
 			var n, nd int64
 			atomic.AddInt32(&started, 1)
 			for atomic.LoadInt32(&done) == 0 {
 				a := atomic.LoadInt32(&inReload)
+				q0 := atomic.LoadInt32(&removalSeq)
 				var st snapState
 				detail := ""
 				switch rr.Intn(5) {
@@ -389,6 +395,7 @@ func childSnap(args []string) {
 					per["GetKeys"]++
 					st = stateOfKeys(conf.GetKeys(), batch)
 				}
+				q1 := atomic.LoadInt32(&removalSeq)
 				b := atomic.LoadInt32(&inReload)
 				atomic.AddInt64(&progress, 1)
 				n++
@@ -400,6 +407,9 @@ func childSnap(args []string) {
 				}
 				if _, ok := mine[st]; ok {
 					mineN[st]++
+					if q0 == q1 && q0%2 == 0 {
+						mineApart[st] = true
+					}
 				}
 				runtime.Gosched()
 			}
@@ -411,6 +421,9 @@ func childSnap(args []string) {
 					seen[s] = d
 				}
 				seenN[s] += mineN[s]
+				if mineApart[s] {
+					seenApart[s] = true
+				}
 			}
 			for k, v := range per {
 				res.PerCall[k] += v
@@ -427,9 +440,11 @@ func childSnap(args []string) {
 	for g := 1; g <= gens; g++ {
 		if g == removeAt {
 			os.Remove(path)
+			atomic.AddInt32(&removalSeq, 1)
 			atomic.StoreInt32(&inReload, 1)
 			fc.VerifReloadNow()
 			atomic.StoreInt32(&inReload, 0)
+			atomic.AddInt32(&removalSeq, 1)
 			res.RemovalReloads++
 			atRest(fmt.Sprintf("the reload that found the file removed (before generation %d)", g), g-1, true)
 		}
@@ -464,7 +479,8 @@ func childSnap(args []string) {
 		}
 		// the generation keys by themselves are consistent (they are those of a state at
 		// rest, or there are none): what is off is the rest of the map — only the reload
-		// that finds the file removed rewrites that
+		// that finds the file removed rewrites that, so every occurrence must have
+		// overlapped that reload
 		snOK := st.NSn == 0 && st.Gens == ""
 		for q := range rest {
 			if q.Call == st.Call && q.NSn == st.NSn && q.Gens == st.Gens && q.Batches == st.Batches {
@@ -477,7 +493,7 @@ func childSnap(args []string) {
 		}
 		addFinding := func(key, msg, example string) { addFindingN(key, msg, example, seenN[st]) }
 		switch {
-		case snOK:
+		case snOK && !seenApart[st]:
 			addFinding("FileConfig:torn-read/snapshot-during-file-removal", "one call returned a configuration that existed at no time: neither the loaded file nor the defaults that replace it when the file is gone", ex)
 		case st.Call == "K":
 			addFinding("FileConfig:torn-read/snapshot-keys", "one GetKeys() call returned a key set that existed at no time (part of the keys a reload adds)", ex)
